@@ -526,11 +526,14 @@ func c15Windows(a *An) {
 		if types.Identical(sig.Params().At(0).Type(), a.Ro.Op) {
 			continue
 		}
-		// classify by result form
+		// classify by result form: constants selected by the value of the argument (switch, or a lookup in a constant
+		// map keyed by the argument) versus a mask built from the argument's bits
 		allConst, anyConst := true, false
 		for _, b := range fn.Blocks {
 			if r, ok := b.Instrs[len(b.Instrs)-1].(*ssa.Return); ok {
 				if _, ok := constUint(r.Results[0]); ok {
+					anyConst = true
+				} else if _, isLk := actionMapLookup(a, fn, r.Results[0]); isLk {
 					anyConst = true
 				} else {
 					allConst = false
@@ -580,9 +583,30 @@ func c15Windows(a *An) {
 		if len(w.Visits) > 0 {
 			root = w.Visits[0].Ctx.root()
 		}
-		rows, err := rowsForReturns(a, w, root, 0)
 		got := map[string]uint64{}
 		var probs []string
+		var rows []Row
+		var err error
+		mapForm := false
+		for _, b := range toFS.Blocks {
+			if r, ok := b.Instrs[len(b.Instrs)-1].(*ssa.Return); ok {
+				if m, isLk := actionMapLookup(a, toFS, r.Results[0]); isLk {
+					// data-driven form: return table[action] for an immutable constant map (missing keys give 0)
+					mapForm = true
+					if !w.Visits[0].Cond.isTrue() || len(toFS.Blocks) != 1 {
+						probs = append(probs, "the map lookup is not the function's only path")
+					}
+					for k, v := range m {
+						if kv, ok := constUint(v); ok {
+							got[k] |= kv
+						}
+					}
+				}
+			}
+		}
+		if !mapForm {
+			rows, err = rowsForReturns(a, w, root, 0)
+		}
 		if err != nil {
 			probs = append(probs, err.Error())
 		}
@@ -628,6 +652,26 @@ func c15Windows(a *An) {
 }
 
 // ---------------------------------------------------------------------------
+
+// actionMapLookup: v is `m[param]` for an immutable constant package-level map m and the function's own parameter.
+func actionMapLookup(a *An, fn *ssa.Function, v ssa.Value) (map[string]*ssa.Const, bool) {
+	lk, ok := stripConv(v).(*ssa.Lookup)
+	if !ok || lk.CommaOk {
+		return nil, false
+	}
+	if _, isParam := stripConv(lk.Index).(*ssa.Parameter); !isParam {
+		return nil, false
+	}
+	ld, ok := lk.X.(*ssa.UnOp)
+	if !ok {
+		return nil, false
+	}
+	g, ok := ld.X.(*ssa.Global)
+	if !ok {
+		return nil, false
+	}
+	return staticMap(a.P, g)
+}
 
 // c15Supports: xSupports is constant true on inotify, and false exactly when an unportable operation is requested elsewhere.
 func c15Supports(a *An, inotify bool) {
